@@ -158,6 +158,12 @@ class World:
                 check_object(z3, 'construct/real-then-complex-write')
         elif how == 'scaled':
             z = F(val, fmt[0], fmt[1], fmt[2], scale=2, bias=0.5, **kw) if fmt[1] <= 30 else F(val, fmt[0], fmt[1], fmt[2], **kw)
+            if fmt[1] <= 30:
+                # scale / bias given together with like= and no size: the limits must follow the new affine map, not the model's
+                plain = F(val, fmt[0], fmt[1], fmt[2], **kw)
+                check_object(F(val, like=plain, scale=2, bias=1), 'construct/like+scale')
+                check_object(F(val, like=z, scale=1, bias=0), 'construct/like-scaled+unit-scale')
+                check_object(F(val, like=z, bias=-3), 'construct/like-scaled+bias')
         else:
             t = self.pick(op['i'])
             if t is None:
